@@ -290,6 +290,11 @@ func runProperty(ld *Loader, verif, prop, tier, dir string, timeout, workers int
 			assumptions = append(assumptions, s.Pkg+": "+a)
 		}
 	}
+	if ld.stdlib != nil {
+		for _, a := range ld.stdlib.Assumptions {
+			assumptions = append(assumptions, "contracts/std_contracts.txt: "+a+" (documented behaviour of the standard library, used where a caller gives no contract of its own)")
+		}
+	}
 	// filter obligations by kind
 	for _, fr := range results {
 		var keep []*Obligation
